@@ -74,14 +74,19 @@ Definition py_slice (n : Z) (s : sel) : option (Z * Z) :=
 (* ---------- model of the code ---------- *)
 Definition i64_min : Z := -9223372036854775808.
 Definition i64_max : Z := 9223372036854775807.
+Definition usize_max : Z := 18446744073709551615.
+(* the arithmetic of range_bounds is done in i128 *)
+Definition wide_min : Z := -170141183460469231731687303715884105728.
+Definition wide_max : Z := 170141183460469231731687303715884105727.
 
-(* i64::try_from(x).unwrap_or(i64::MAX); x ranges over values of the ten integer types and usize *)
-Definition index_i64 (z : Z) : Z := if z >? i64_max then i64_max else z.
+(* i128::try_from(x).unwrap_or(i128::MAX); x ranges over values of the ten integer types and usize,
+   all of which fit: the saturation never happens (BoundsProofs.index_wide_id) *)
+Definition index_wide (z : Z) : Z := if z >? wide_max then wide_max else z.
 
-(* i64::saturating_add *)
+(* i128::saturating_add *)
 Definition sat_add (a b : Z) : Z :=
   let s := a + b in
-  if s >? i64_max then i64_max else if s <? i64_min then i64_min else s.
+  if s >? wide_max then wide_max else if s <? wide_min then wide_min else s.
 
 (* common::clamp *)
 Definition clampZ (v lo hi : Z) : Z := if v <? lo then lo else if v >? hi then hi else v.
@@ -89,7 +94,7 @@ Definition clampZ (v lo hi : Z) : Z := if v <? lo then lo else if v >? hi then h
 Inductive bnd := Unb | Inc (z : Z) | Exc (z : Z).
 
 Definition range_bounds (s e : bnd) (n : Z) : option (Z * Z) :=
-  let size := index_i64 n in
+  let size := index_wide n in
   if size =? 0 then None
   else
     let resolve := fun i => if i <? 0 then sat_add i size else i in
@@ -111,13 +116,13 @@ Definition view_bounds (t : ity) (s : sel) (n : Z) : option (Z * Z) :=
   match s with
   | Full => range_bounds Unb Unb n
   | Idx i =>
-      if ity_signed t then range_bounds (Inc i) (Inc i) n      (* self as i64: lossless for signed types *)
+      if ity_signed t then range_bounds (Inc i) (Inc i) n      (* self as i128: lossless for signed types *)
       else if i >=? n then None else Some (i, i + 1)          (* self as usize: lossless for unsigned types *)
-  | Rng a b => range_bounds (Inc (index_i64 a)) (Exc (index_i64 b)) n
-  | From a => range_bounds (Inc (index_i64 a)) Unb n
-  | To b => range_bounds Unb (Exc (index_i64 b)) n
-  | RngI a b => range_bounds (Inc (index_i64 a)) (Inc (index_i64 b)) n
-  | ToI b => range_bounds Unb (Inc (index_i64 b)) n
+  | Rng a b => range_bounds (Inc (index_wide a)) (Exc (index_wide b)) n
+  | From a => range_bounds (Inc (index_wide a)) Unb n
+  | To b => range_bounds Unb (Exc (index_wide b)) n
+  | RngI a b => range_bounds (Inc (index_wide a)) (Inc (index_wide b)) n
+  | ToI b => range_bounds Unb (Inc (index_wide b)) n
   end.
 
 (* ---------- what a selector means, element by element ---------- *)
